@@ -223,10 +223,11 @@ func buildJM(c *mc.Ctx, thorough bool) *jmCase {
 // ---------------------------------------------------------------- precompile cases (C03c, C14)
 
 type pcCase struct {
-	Case    *world.Case `json:"case"`
-	Target  byte        `json:"target"`
-	Reach   gen.Reach   `json:"reach"`
-	HostAns int         `json:"host_ans"` // 0 value, 1 empty, 2 error
+	Case    *world.Case    `json:"case"`
+	Target  byte           `json:"target"`
+	Reach   gen.Reach      `json:"reach"`
+	HostAns int            `json:"host_ans"` // 0 value, 1 empty, 2 error
+	Caller  common.Address `json:"caller"`   // the contract (or account) whose call reaches the precompile
 }
 
 var pcForks = []world.Fork{world.Istanbul, world.Berlin, world.Shanghai}
@@ -248,9 +249,9 @@ func buildPC(c *mc.Ctx, thorough bool) *pcCase {
 		gas = []uint64{200000, 5000, 4999}[c.Deviate(3)]
 	}
 	ans := c.Deviate(3)
-	cs := gen.PrecompileCase(f, target, r, payload, gas)
+	cs, caller := gen.PrecompileCase(f, target, r, payload, gas, false)
 	cs.Note = fmt.Sprintf("PC target=%#x reach=%s len=%d ans=%d", target, r, n, ans)
-	return &pcCase{Case: cs, Target: target, Reach: r, HostAns: ans}
+	return &pcCase{Case: cs, Target: target, Reach: r, HostAns: ans, Caller: caller}
 }
 
 // hostLog records the host callbacks of one execution.
